@@ -73,6 +73,7 @@ class SimSocket:
         self.rx_fin = 0               # 0 none, 1 in flight (after data), 2 arrived
         self.rx_rst = 0               # 0 none, 1 in flight, 2 arrived
         self.rst_reported = False     # the ECONNRESET was handed to the application once
+        self.short_once = False       # next MSG_WAITALL read returns short although the stream goes on
         self.wr_after_fin = 0         # writes that went into the void after the peer's FIN
         self.starve = 0
         # armed write fault (peer dies after k more bytes of what I send)
@@ -227,6 +228,12 @@ class SimSocket:
         while True:
             if self.closed:
                 raise self._ebadf()
+            if self.short_once and self.side == "mgr" and n > 1 and self.rx_arrived:
+                # a MSG_WAITALL read that comes back short although the stream has not ended (as after a signal
+                # that arrives when part of the data has been received): armed by a harness, fires once
+                self.short_once = False
+                net.stats["waitall_short"] = net.stats.get("waitall_short", 0) + 1
+                return self._take(min(len(self.rx_arrived), n - 1))
             if len(self.rx_arrived) >= n:
                 return self._take(n)
             if self.rx_rst == 2:
@@ -250,6 +257,10 @@ class SimSocket:
             nbytes = len(mv)
         if nbytes == 0:
             return 0
+        if flags & _real_socket.MSG_PEEK:
+            data = self._peek(nbytes)
+            mv[:len(data)] = data
+            return len(data)
         waitall = bool(flags & _real_socket.MSG_WAITALL) and self.timeout is None
         try:
             if waitall:
@@ -269,11 +280,28 @@ class SimSocket:
             self.net.on_peer_read(self, data, nbytes)
         return len(data)
 
+    def _peek(self, n: int) -> bytes:
+        """MSG_PEEK: what has arrived (at most n bytes) without consuming it; waits while nothing is there"""
+        while True:
+            if self.closed:
+                raise self._ebadf()
+            if self.rx_arrived:
+                return bytes(self.rx_arrived[:n])
+            if self.rx_rst == 2:
+                if not self.rst_reported:
+                    raise ConnectionResetError(errno.ECONNRESET, "Connection reset by peer")
+                return b""
+            if self.rx_fin == 2:
+                return b""
+            self.net.block_in_recv(self, 1)
+
     def recv(self, nbytes, flags=0):
         if nbytes < 0:
             raise ValueError("negative buffersize in recv")
         if nbytes == 0:
             return b""
+        if flags & _real_socket.MSG_PEEK:
+            return self._peek(nbytes)
         waitall = bool(flags & _real_socket.MSG_WAITALL) and self.timeout is None
         if waitall:
             data = self._recv_core(nbytes)
